@@ -94,6 +94,32 @@ Theorem C07_spec_ok_reads : forall c o, spec_ok c o = true ->
 Proof. exact spec_ok_reads. Qed.
 Print Assumptions C07_spec_ok_reads.
 
+(* inside one datatype family (same datatype IRI; plain and language-tagged literals together; no private empty tag) the observed <
+   must be irreflexive, asymmetric and transitive - what sorted() needs to be reproducible *)
+Theorem C07_spec_ok_family_reads : forall c o, spec_ok c o = true ->
+  let ts := c_terms c in
+  let t := fun i => nth i ts (IRI []) in
+  let lt := fun i j => nthd (o_lt o) i j None = Some CLt in
+  forall i j k, (i < length ts)%nat -> (j < length ts)%nat -> (k < length ts)%nat ->
+    same_family (t i) (t j) = true ->
+    ~ (lt i j /\ lt j i)
+    /\ (same_family (t j) (t k) = true -> lt i j -> lt j k -> lt i k).
+Proof. exact spec_ok_family_reads. Qed.
+Print Assumptions C07_spec_ok_family_reads.
+
+(* on the modelled literals (strings with tags not differing only in case, [+-]?[0-9]+ integers) < inside a
+   family IS a strict order: the lexicographic order on (tag, lexical form), resp. the order of the integers *)
+Theorem C07_family_order_model : forall a b, same_dt a b = true -> case_variant a b = false ->
+  is_lt (cmp_of (term_lt a b)) = mlt a b.
+Proof. exact fam_is_lt. Qed.
+Print Assumptions C07_family_order_model.
+
+Theorem C07_family_order_strict :
+  (forall a, mlt a a = false) /\ (forall a b, mlt a b && mlt b a = false)
+  /\ (forall a b c, mlt a b = true -> mlt b c = true -> mlt a c = true).
+Proof. exact (conj mlt_irrefl (conj mlt_asym mlt_trans)). Qed.
+Print Assumptions C07_family_order_strict.
+
 (* the tie for the suite "text" (n3, from_n3, pickle of one term).  PARTIAL: the from_n3 round trip is proved
    for IRIs (Latin-1), blank nodes, and literals whose lexical form needs no escape (no LF CR quote backslash,
    Latin-1) and is not an INF/NaN respelling; the remaining literals are covered by running only.
@@ -132,11 +158,12 @@ Print Assumptions C07_n3_from_n3_bs_quote_refuted.
 (* non-vacuity: a case with all four kinds, a tag differing in case and an integer literal passes the
    checker, and a non-trivial text case is inside the proved fragment *)
 Example C07_nonvacuous :
-  let c := {| c_terms := [BNd [97]; Var [97]; IRI [97]; Lit [97] None (Some [101; 110]); Lit [97] None (Some [69; 78]);
+  let c := {| c_terms := [BNd [97]; Var [97]; IRI [97]; Lit [97] None (Some [101; 110]); Lit [97] None (Some [102; 114]);
                           Lit [49] (Some xsd_integer) None];
-              c_hash := [] |} in
+              c_hash := []; c_ill := [false; false; false; false; false; false] |} in
   kf c = 0 /\ spec_ok c (model_obs c) = true
-  /\ nthd (o_eq (model_obs c)) 3 4 false = true
+  /\ nthd (o_lt (model_obs c)) 3 4 None = Some CLt
+  /\ term_eqb (Lit [97] None (Some [101; 110])) (Lit [97] None (Some [69; 78])) = true
   /\ nthd (o_lt (model_obs c)) 0 1 None = Some CLt
   /\ (let t := {| t_term := Lit [97; 39; 233] (Some [117; 114; 110; 58; 100]) None; t_orc := [] |} in
       wf_term (t_term t) = true /\ tkf t = 0 /\ text_proved (t_term t) = true /\ tspec_ok t (tmodel_obs t) = true).
